@@ -101,18 +101,9 @@ func c01Gate(c *Ctx, m *Module) {
 				found = true
 				// same X as stored in upload.X
 				okSameX := false
-				for _, in := range instrsOf(fn) {
-					st, ok := in.(*ssa.Store)
-					if !ok {
-						continue
-					}
-					fa, ok := st.Addr.(*ssa.FieldAddr)
-					if !ok || fa.X != us.upload {
-						continue
-					}
-					if _, f2, _ := fieldAddrName(fa); f2 == "X" && describe(st.Val) == describe(other) {
-						okSameX = true
-					}
+				if hd, ok := reportHeader(fn, us.upload); ok {
+					ob, of, isF := fieldLoad(other)
+					okSameX = isF && hd["X"].Base != nil && hd["X"].Base == strip(ob) && hd["X"].Field == of
 				}
 				r.Check("C01.gate", "createReport/"+kind+" rate guard uses the uploaded X", m.Pos(mu.Pos()), okSameX, "the X compared with the rate must be the X written into the upload report")
 			}
@@ -202,23 +193,11 @@ func c01Gate(c *Ctx, m *Module) {
 		base := strip(fa.X)
 		_, fld, _ := fieldAddrName(fa)
 		switch base {
-		case ssa.Value(us.upload):
+		case us.upload:
 			if fld == "Programs" {
 				continue
 			}
-			b, f2, ok := fieldLoad(st.Val)
-			okHdr := ok && f2 == fld && (fld == "Week" || fld == "LastWeek" || fld == "X" || fld == "Config")
-			if okHdr {
-				if reportAlloc == nil {
-					reportAlloc = strip(b)
-				} else if strip(b) != reportAlloc {
-					okHdr = false
-				}
-				if al, isAl := strip(b).(*ssa.Alloc); !isAl || namedType(al.Type()) != "internal/telemetry.Report" {
-					okHdr = false
-				}
-			}
-			r.Check("C01.metadata", "createReport/upload."+fld, m.Pos(st.Pos()), okHdr, "header field must be copied from the same field of the local report; got "+describe(st.Val))
+			// header stores are judged below through reportHeader (also covers helper-built reports)
 		case us.x:
 			switch fld {
 			case "Counters", "Stacks":
@@ -228,6 +207,33 @@ func c01Gate(c *Ctx, m *Module) {
 				_, f2, ok := fieldLoad(st.Val)
 				okId := ok && f2 == fld && (fld == "Program" || fld == "Version" || fld == "GoVersion" || fld == "GOOS" || fld == "GOARCH")
 				r.Check("C01.metadata", "createReport/x."+fld, m.Pos(st.Pos()), okId, "only identity fields may be copied into the uploaded program; got "+describe(st.Val))
+			}
+		}
+	}
+	// header of the upload report: every field is the same field of ONE local report
+	{
+		hd, ok := reportHeader(fn, us.upload)
+		r.Check("C01.metadata", "createReport/upload report header resolved", m.Pos(fn.Pos()), ok, "the upload report must be a literal or the result of a helper returning a literal")
+		for _, fld := range []string{"Week", "LastWeek", "X", "Config"} {
+			h := hd[fld]
+			okHdr := h.Base != nil && h.Field == fld && namedType(h.Base.Type()) == "internal/telemetry.Report" && h.Base != us.upload
+			if okHdr {
+				if reportAlloc == nil {
+					reportAlloc = h.Base
+				} else if h.Base != reportAlloc {
+					okHdr = false
+				}
+			}
+			if fld == "Config" && h.Desc == "param:u.configVersion" {
+				okHdr = true // the same source the local report's Config is taken from
+			}
+			r.Check("C01.metadata", "createReport/upload."+fld, m.Pos(fn.Pos()), okHdr, "the upload report's "+fld+" must be the local report's "+fld+" (in particular the X that selected the counters is the X that is uploaded); got "+h.Desc)
+		}
+		for fld, h := range hd {
+			switch fld {
+			case "Week", "LastWeek", "X", "Config", "Programs":
+			default:
+				r.Check("C01.metadata", "createReport/upload."+fld+" (unexpected header field)", m.Pos(fn.Pos()), false, "got "+h.Desc)
 			}
 		}
 	}
